@@ -103,6 +103,39 @@ mut('twin-c16-msg', 'C16', 'mesh.py', "raise TypeError('Incorrect number of argu
 mut('twin-c12-alpha', 'C12', 'source.py', "    return linearSourceTerm(a/dt), constantSourceTerm(a*phi/dt)", "    return linearSourceTerm(a*(1/dt)), constantSourceTerm(phi*a/dt)", None)
 
 
+# ---- added with the second round of seeded changes
+mut('twin-c10-diff-pad', 'C10', 'mesh.py', "        return np.hstack([facelocation[1]-facelocation[0],\n                          facelocation[1:]-facelocation[0:-1],\n                          facelocation[-1]-facelocation[-2]])", "        d = np.diff(facelocation)\n        return np.pad(d, 1, mode='edge')", None)
+mut('twin-c10-diff-concat', 'C10', 'mesh.py', "        return np.hstack([facelocation[1]-facelocation[0],\n                          facelocation[1:]-facelocation[0:-1],\n                          facelocation[-1]-facelocation[-2]])", "        d = np.diff(facelocation)\n        return np.concatenate(([d[0]], d, [d[-1]]))", None)
+mut('twin-c06-none-newaxis', 'C06', 'diffusion.py', "np.newaxis", "None", None, occ='all')
+mut('twin-c05-flatten', 'C05', 'diffusion.py', ".ravel()", ".flatten()", None, occ='all')
+mut('twin-c01-concatenate', 'C01', 'diffusion.py', "np.hstack([", "np.concatenate([", None, occ='all')
+mut('twin-c12-try-genexp', 'C12', 'pdesolver.py', "    x = phi_old._value + dt*RHS.reshape(phi_old._value.shape)\n", "    try:\n        shp = tuple(n for n in phi_old._value.shape)\n    except AttributeError:\n        raise TypeError('phi_old must be a CellVariable')\n    x = phi_old._value + dt*RHS.reshape(shp)\n", None)
+mut('twin-c14-radd-copy0', 'C14', 'cell.py', "    def __radd__(self, other):\n        if type(other) is CellVariable:", "    def __radd__(self, other):\n        if np.isscalar(other) and other == 0:\n            return self.copy()\n        if type(other) is CellVariable:", None)
+mut('c14-radd-self0', 'C14', 'cell.py', "    def __radd__(self, other):\n        if type(other) is CellVariable:", "    def __radd__(self, other):\n        if np.isscalar(other) and other == 0:\n            return self\n        if type(other) is CellVariable:", 'CellVariable.__radd__')
+mut('c09-explicit-noguard', 'C09', 'pdesolver.py', "    if phi_old.BCs.modified or phi_old.value.modified:\n        phi_old.apply_BCs()\n    \n    x = phi_old._value", "    x = phi_old._value", 'solveExplicitPDE/BCs.modified=True')
+mut('c05-tvd-drop-args', 'C05', 'advection.py', "        return convectionTvdRHSCylindrical1D(u, phi, FL, *args)", "        return convectionTvdRHSCylindrical1D(u, phi, FL)", 'convectionTvdRHSCylindrical1D')
+mut('c01-explicit-noapply', 'C01', 'pdesolver.py', "    phi._value = TrackedArray(x)\n    phi.apply_BCs()\n    return phi", "    phi._value = TrackedArray(x)\n    return phi", 'solveExplicitPDE')
+
+
+def seeded_entries():
+    """every independently seeded change whose target check reports it is replayed as a mutant of the target check"""
+    sd = os.path.join(VERIF, 'seeded')
+    for d in sorted(os.listdir(sd)):
+        mp = os.path.join(sd, d, 'meta.json')
+        if not os.path.exists(mp):
+            continue
+        meta = json.load(open(mp))
+        tgt = meta['breaks_property']
+        hits = meta.get('caught_by', {}).get(tgt)
+        if not hits:
+            continue
+        cons = re.search(r'construct=(\S+)', hits[0]).group(1)
+        M.append(dict(id='seed-' + d, prop=tgt, patch=os.path.join(sd, d, 'patch.diff'), expect=cons.split('[')[0][:60]))
+
+
+seeded_entries()
+
+
 def run_one(m, keep=False):
     tmp = tempfile.mkdtemp(prefix='pv_selftest_')
     try:
@@ -110,23 +143,28 @@ def run_one(m, keep=False):
         shutil.copytree(REPO_SRC, dst)
         os.makedirs(os.path.join(tmp, 'docs'), exist_ok=True)
         shutil.copytree('/repo/docs/user_guide', os.path.join(tmp, 'docs', 'user_guide'))
-        path = os.path.join(dst, m['file'])
-        s = open(path).read()
-        n = s.count(m['old'])
-        if n == 0:
-            return m, 'SETUP', f"pattern not found in {m['file']}"
-        if m['occ'] == 'all':
-            s2 = s.replace(m['old'], m['new'])
+        if 'patch' in m:
+            r = subprocess.run(['git', 'apply', m['patch']], cwd=tmp, capture_output=True, text=True)
+            if r.returncode:
+                return m, 'SETUP', f"patch does not apply: {r.stderr[:200]}"
         else:
-            parts = s.split(m['old'])
-            k = m['occ']
-            s2 = m['old'].join(parts[:k + 1]) + m['new'] + m['old'].join(parts[k + 1:])
-        open(path, 'w').write(s2)
-        try:
-            import ast
-            ast.parse(s2)
-        except SyntaxError as e:
-            return m, 'SETUP', f"mutant does not parse: {e}"
+            path = os.path.join(dst, m['file'])
+            s = open(path).read()
+            n = s.count(m['old'])
+            if n == 0:
+                return m, 'SETUP', f"pattern not found in {m['file']}"
+            if m['occ'] == 'all':
+                s2 = s.replace(m['old'], m['new'])
+            else:
+                parts = s.split(m['old'])
+                k = m['occ']
+                s2 = m['old'].join(parts[:k + 1]) + m['new'] + m['old'].join(parts[k + 1:])
+            open(path, 'w').write(s2)
+            try:
+                import ast
+                ast.parse(s2)
+            except SyntaxError as e:
+                return m, 'SETUP', f"mutant does not parse: {e}"
         env = dict(os.environ, PV_REPO=tmp, PV_EVIDENCE_DIR=os.path.join(tmp, 'evidence'), PV_JOBS='4')
         p = subprocess.run([os.path.join(VERIF, 'check'), m['prop'], '--tier', 'quick'], cwd=VERIF, env=env, capture_output=True, text=True, timeout=900)
         out = p.stdout + p.stderr
